@@ -11,6 +11,7 @@ import Pastel.Lemmas.Annealing
 import Pastel.Lemmas.Rearrange
 import Pastel.Order
 import Pastel.FloatFns
+import Pastel.Model.CliRun
 
 namespace Pastel.C14
 open Pastel
@@ -374,5 +375,42 @@ theorem float_saRun_fixed (big : Float) (p : SaParams Float) (colors : List (Col
     (hm : MetricOk big p.metric) (hk : p.numFixed ≤ colors.length) (st : SaState Float)
     (h : saRun big p colors d = some st) : ∀ i, i < p.numFixed → st.colors[i]? = colors[i]? :=
   saRun_fixed big p colors d hm hk st h
+
+/-! ### At the command line (CLI model) -/
+
+section clirun
+open Pastel.Cli
+
+/-- **`pastel distinct N fixed…` at the command line** (on the CLI model): it prints exactly `N`
+lines when `N ≥ 2` is a readable count, every fixed colour can be read and there are at most `N` of
+them; otherwise nothing is printed and the error is, in this order: unreadable count, count below
+two, the first unreadable fixed colour, more fixed colours than `N`. -/
+theorem distinct_cli (n : String) (fixed : List String) (stdin : List StdinLine) :
+    (∀ count cs, parseUsize n.toList = some count → 2 ≤ count → collectArgs fixed stdin = .ok cs → cs.length ≤ count →
+      (run "distinct" [n, "0"] fixed stdin).lines.length = count ∧ (run "distinct" [n, "0"] fixed stdin).err = none) ∧
+    (parseUsize n.toList = none → run "distinct" [n, "0"] fixed stdin = fail (.couldNotParseNumber n)) ∧
+    (∀ count, parseUsize n.toList = some count → count < 2 → run "distinct" [n, "0"] fixed stdin = fail .distinctCount) ∧
+    (∀ count e, parseUsize n.toList = some count → 2 ≤ count → collectArgs fixed stdin = .error e →
+      run "distinct" [n, "0"] fixed stdin = fail e) ∧
+    (∀ count cs, parseUsize n.toList = some count → 2 ≤ count → collectArgs fixed stdin = .ok cs → count < cs.length →
+      run "distinct" [n, "0"] fixed stdin = fail .distinctFixed) := by
+  have hrun : run "distinct" [n, "0"] fixed stdin = runDistinct [n, "0"] fixed stdin := by
+    unfold run
+    simp only [show ("distinct" = "mix") = False by decide, show ("distinct" = "gray") = False by decide,
+      show ("distinct" = "gradient") = False by decide, show ("distinct" = "sort-by") = False by decide,
+      show ("distinct" = "paint") = False by decide, show ("distinct" = "random") = False by decide, if_false, if_true]
+  rw [hrun]
+  refine ⟨?_, ?_, ?_, ?_, ?_⟩
+  · intro count cs hp h2 hc hl
+    unfold runDistinct
+    simp only [hp, hc]
+    rw [if_neg (by omega), if_neg (by omega)]
+    simp
+  · intro hp; unfold runDistinct; simp only [hp]
+  · intro count hp h2; unfold runDistinct; simp only [hp]; rw [if_pos h2]
+  · intro count e hp h2 hc; unfold runDistinct; simp only [hp, hc]; rw [if_neg (by omega)]
+  · intro count cs hp h2 hc hl; unfold runDistinct; simp only [hp, hc]; rw [if_neg (by omega), if_pos hl]
+
+end clirun
 
 end Pastel.C14
